@@ -2440,7 +2440,11 @@ void QXmppJingleRtpEncryption::parse(const QDomElement &element)
         if (QXmppJingleRtpCryptoElement::isJingleRtpCryptoElement(childElement)) {
             QXmppJingleRtpCryptoElement cryptoElement;
             cryptoElement.parse(childElement);
-            d->cryptoElements.append(std::move(cryptoElement));
+            // toXml() writes a <crypto/> only with crypto-suite and key-params: keeping an invalid one made
+            // <encryption><crypto/></encryption> serialize to an empty <encryption/> and then to nothing
+            if (!cryptoElement.cryptoSuite().isEmpty() && !cryptoElement.keyParams().isEmpty()) {
+                d->cryptoElements.append(std::move(cryptoElement));
+            }
         }
     }
 }
